@@ -24,7 +24,7 @@ lane() {
     [ "$v" = 1 ] && feats="$feats variablelist"
     [ "$f" = 1 ] && feats="$feats frontend"
     name="c-$c.v$v.f$f"
-    ( cd "$ROOT/probe" && cargo build --offline --quiet --no-default-features --features "$feats" \
+    ( cd "$ROOT/probe" && cargo build --offline --quiet --no-default-features --features "probe $feats" \
         --target-dir "$ROOT/target/probe/lane$lane" 2>"$ROOT/target/probe/build-$name.log" ) || { echo "probe build failed for $name"; tail -20 "$ROOT/target/probe/build-$name.log"; return 1; }
     cp -f "$ROOT/target/probe/lane$lane/debug/probe" "$ROOT/target/probe/bin/probe-$name" || return 1
   done
